@@ -18,7 +18,7 @@ CLAIMED = {
              "(Pg/Stmt.v) and compared with the intended clause tree; (B) reflection-generated and grammar-shaped API programs, "
              "clause tree from the builder records vs reading of the text, every nested statement included; byte-exact model "
              "correspondence on all of them; all four option combinations. C01_api_*: laws of the functional model of the "
-             "builder methods (Model/Api.v) - WHERE/HAVING accumulate in call order and change nothing else, last call of "
+             "builder methods (Model/Api.v) - WHERE/HAVING, UPDATE SET items, INSERT VALUES rows, DELETE conditions accumulate in call order and change nothing else, last call of "
              "LIMIT/OFFSET wins, independent options commute, an alias goes to the FROM item added last; (C) that model is "
              "compared call by call (all fields) with the implementation on reflection-driven histories from the entry points.",
         note="Partial: that the separators are the grammar's keywords for the slot and that part texts do not disturb the clause "
@@ -44,13 +44,15 @@ CLAIMED = {
              "the precedence table and reader are a formalisation of gram.y written by hand. D7 is a recorded finding, not repaired.",
         ref="DESIGN.md §6 C02"),
     "C03": dict(
-        technique="Coq proof (simulation invariant over the writer language) + extracted-model correspondence",
+        technique="Coq proof (simulation invariant over the writer language; constructor model: one slot per value handed to Args) + extracted-model correspondence of renderings and of constructor calls",
         text="Theorems C03_placeholders_enumerate / C03_substitution_restores_composition hold for every value, "
              "option combination and supplied map (induction over an arbitrary writer tree, abstract value type "
              "without equality). The model is a hand-written transliteration of every WriteSQL method; it is tied "
              "to /repo on every run by rendering thousands of reflection-generated API programs on the real "
              "library and on the extracted model and comparing sql/args/err byte for byte, and the property is "
-             "evaluated directly on the implementation's output.",
+             "evaluated directly on the implementation's output. C03_args_one_slot_per_value: Args(v1..vn) as modelled in Model/Ctor.v "
+             "binds exactly v1..vn in order, equal values included; the constructor model is compared call by call with the "
+             "implementation (what a constructor records is invisible to a check that starts from the constructed value).",
         note="Trusted: Coq kernel, extraction, the reflective dump/decoder, Go's strconv/strings. The proof is about "
              "the model; the tie to the code is a differential test (sampled).",
         ref="DESIGN.md §6 C03"),
@@ -251,10 +253,12 @@ CLAIMED = {
              "identically in the model. C20_builder_call_preserves_wf / C20_reachable_no_panic: every statement reachable "
              "from Select / SelectJson / InsertInto / Update / DeleteFrom / With / WithRecursive by any number of modelled builder calls with well-formed "
              "arguments is well-formed, hence renders without panic; the API model (Model/Api.v) is compared call by call "
-             "with the implementation, and no recorded call meeting the hypotheses yields a value whose rendering panics.",
-        note="Partial: for expression constructors (fn package, operators) reachable => wfe is checked on generated values only; "
-             "ApplyIf and ApplySelectJson (function arguments) are not in the API model; Go runtime stack exhaustion / "
-             "allocation failure not modelled.",
+             "with the implementation, and no recorded call meeting the hypotheses yields a value whose rendering panics. "
+             "C20_constructor_preserves_wf / C20_method_preserves_wf / C20_built_no_panic: the same for the expression constructors "
+             "and the ExpBase methods (Model/Ctor.v) and for any nesting of modelled calls whose expression arguments are built likewise.",
+        note="Partial: C20_built_no_panic covers the modelled API (Model/Api.v, Model/Ctor.v); package fn (thin wrappers, C18), Float, the JSON "
+             "object builder (C16), the CASE chain, ApplyIf and ApplySelectJson are outside `built` - for them reachable => wfe is "
+             "checked on generated values only; Go runtime stack exhaustion / allocation failure not modelled.",
         ref="DESIGN.md §6 C20"),
 }
 
